@@ -332,7 +332,7 @@ theorem parts_of_ok_dir (ker : Kernel) (hk : ker.kind = .dir) (hok : kernelOk ke
 
 theorem parts_of_ok_und (ker : Kernel) (hk : ker.kind = .und) (hok : kernelOk ker = true) :
     edgesOk ker = true ∧ ker.incr = 1 ∧ flipOk ker = true ∧ ker.guard = stdGuard ∧ latOkShape ker = true ∧
-    (ker.maskGuard = [] ∨ ker.maskGuard = stdGuard) := by
+    (ker.maskGuard = [] ∨ cellsEq ker.maskGuard stdMaskGuard = true) := by
   simp only [kernelOk, hk, Bool.and_eq_true, beq_iff_eq, Bool.or_eq_true] at hok
   exact ⟨hok.2.1.2, hok.2.2, hok.2.1.1.1.1.1.1.2, hok.2.1.1.1.1.1.2, hok.2.1.1.2, hok.2.1.1.1.1.2⟩
 
@@ -380,6 +380,28 @@ theorem link_guard (ker : Kernel) (hg : ker.guard = stdGuard) (ρ : Sym → Fin 
     guardHolds ρ R ker.guard = true ↔ ¬ (R.get (ρ a) (ρ d) ≠ 0 ∨ R.get (ρ c) (ρ b) ≠ 0) := by
   rw [hg]
   simp [guardHolds, stdGuard]
+
+/-- the extracted mask cells (as a set: both orientations of the two new edges) evaluate to the mask test of
+the model's `accept`: `B[a,d] == 0 && B[c,b] == 0 && B[d,a] == 0 && B[b,c] == 0` -/
+theorem link_mask (ker : Kernel) (hm : cellsEq ker.maskGuard stdMaskGuard = true) (ρ : Sym → Fin n) (B : AMat Int n) :
+    guardHolds ρ B ker.maskGuard =
+      (B.get (ρ a) (ρ d) == 0 && B.get (ρ c) (ρ b) == 0 && B.get (ρ d) (ρ a) == 0 && B.get (ρ b) (ρ c) == 0) := by
+  simp only [cellsEq, Bool.and_eq_true, List.all_eq_true, List.contains_iff_mem] at hm
+  obtain ⟨h1, h2⟩ := hm
+  rw [Bool.eq_iff_iff]
+  simp only [guardHolds, List.all_eq_true, Bool.and_eq_true, beq_iff_eq]
+  constructor
+  · intro h
+    exact ⟨⟨⟨h (a, d) (h2 _ (by simp [stdMaskGuard])), h (c, b) (h2 _ (by simp [stdMaskGuard]))⟩,
+      h (d, a) (h2 _ (by simp [stdMaskGuard]))⟩, h (b, c) (h2 _ (by simp [stdMaskGuard]))⟩
+  · rintro ⟨⟨⟨g1, g2⟩, g3⟩, g4⟩ x hx
+    have := h1 x hx
+    simp only [stdMaskGuard, List.mem_cons, List.not_mem_nil, or_false] at this
+    rcases this with rfl | rfl | rfl | rfl
+    · exact g1
+    · exact g2
+    · exact g3
+    · exact g4
 
 /-- the extracted lattice products evaluate to the model's `latOk` -/
 theorem link_lat (ker : Kernel) (hl : ker.latLhs = stdLatLhs) (hr : ker.latRhs = stdLatRhs)
